@@ -110,6 +110,11 @@ def check(ctx):
     for imp in ctx.prog.impls:
         if imp.get("trait") == c17.WPR:
             c17.check_private_predicate(ctx, "R-3", imp["self_ty"])
+    # the creating methods (create_signature, add_detached_signature, create_tag, create_ciphertext ...) are builder calls too:
+    # what they store, that they touch nothing else, and the documented panic of the detached variants when a payload is
+    # already embedded - C06's recogniser of the helpers, restricted to the builders, under this property
+    from rules import c06 as _c06
+    _c06.check_helpers(ctx.under("R-2", "creating-methods"), builders_only=True)
     n_methods = 0
     n_setters = 0
     for bname, methods in sorted(bs.items()):
@@ -335,3 +340,4 @@ def _key_ctor(ctx, prog, f, pv, rt, effs):
     ctx.ob("R-2", "key-ctor:%s" % key, not problems,
            "%s builds kty=%s with parameters %s and everything else default" % (key, kty, [(l, k) for l, k, _ in want_params]), where=f.span,
            detail={"problems": problems}, sample={"ctor": key, "kty": kty, "params": [(l, k) for l, k, _ in want_params]})
+META["decides"] += ' R-2 also: the creating methods of the builders (create_signature, add_detached_signature, create_tag, create_ciphertext and their try_ forms) call the caller\'s function once, store its result in the documented field, touch nothing else, return the builder, and the detached variants reach the signer only under `payload.is_none()` (C06\'s helper recogniser restricted to the builders).'
